@@ -10,7 +10,7 @@ from vlib import build_lib
 
 THEOREMS = ["C11_fast_stream", "C11_continue_decodes", "C11_hist_prelude", "C11_hist_write_block", "C11_hist_saveDict", "C11_renorm", "C11_shift", "C11_hc_mid_stream", "C11_hc_mid_continue", "C11_hc_mid_decodes", "C11_hc_mid_write_block", "C11_hc_mid_saveDict"]
 ORACLES = ["stream"]
-CORRESPONDENCE = ["Model.HcMidStream (HC levels 1-2: initStreamHC, resetStreamHC(_fast), setCompressionLevel, loadDictHC/LZ4MID_fillHTable, attach_HC_dictionary bookkeeping, setExternalDict, overlap trimming, 2 GB reload, compress_HC_continue(_destSize), saveDictHC, extStateHC(_fastReset)) == lib/lz4hc.c: return value, consumed, bytes, both LZ4MID hash tables, end/prefixStart/dictStart (arena addresses), dictLimit/lowLimit/nextToUpdate, level, dirty, dictCtx null/non-null after EVERY mirrored call; calls at levels >= 3 or reaching the dictionary-context search are outside the model (state re-imported afterwards)",
+CORRESPONDENCE = ["Model.HcMidStream (HC levels 1-2: initStreamHC, resetStreamHC(_fast), setCompressionLevel, loadDictHC/LZ4MID_fillHTable, attach_HC_dictionary with the dictionary context copied / detached / searched in place (LZ4MID_searchExtDict = Model.HcMidDict), setExternalDict, overlap trimming, 2 GB reload, compress_HC_continue(_destSize), saveDictHC (fixes F17, F18), extStateHC(_fastReset)) == lib/lz4hc.c: return value, consumed, bytes, both LZ4MID hash tables, end/prefixStart/dictStart (arena addresses), dictLimit/lowLimit/nextToUpdate, level, dirty, dictCtx null/non-null after EVERY mirrored call; calls at levels >= 3 or searching a dictionary context whose stream is at a level >= 3 (LZ4MID_searchHCDict) are outside the model (state re-imported afterwards)",
                   "Model.FastStream (initStream, resetStream_fast, loadDict/loadDictSlow, attach_dictionary, renormDictT, compress_fast_continue, "
                   "compress_forceExtDict, saveDict, one-shot entry points) == lib/lz4.c: return value, output bytes, currentOffset, tableType, dictSize, "
                   "dictionary address, dictCtx null/non-null, md5 of the hash table, after EVERY operation; saveDict: saved bytes"]
